@@ -904,6 +904,47 @@ impl C29 {
                     }
                     fp.add(0x400);
                 }
+                6 => {
+                    // the same file after a trip through the binary format in which a block of zero words
+                    // (legal in the format, never written by the assembler) was added below its first block
+                    use lc3_ensemble::asm::encoding::{BinaryFormat, ObjFileFormat};
+                    let k = *arg as usize % files.len();
+                    let Some(first) = files[k].obj.blocks.keys().next().copied() else { continue };
+                    let gap = 1 + (*arg as u16 / 7) % 5;
+                    if first < gap {
+                        continue;
+                    }
+                    let at = first - gap;
+                    let mut bytes = BinaryFormat::serialize(&objs[k]);
+                    if bytes.len() < 7 {
+                        continue;
+                    }
+                    let chunk = [0u8, at as u8, (at >> 8) as u8, 0, 0];
+                    let tail = bytes.split_off(7);
+                    bytes.extend_from_slice(&chunk);
+                    bytes.extend_from_slice(&tail);
+                    let Ok(Some(o2)) = guarded(|| BinaryFormat::deserialize(&bytes)) else { continue };
+                    let before: Vec<Word> = (0..=0xFFFFu16).map(|x| sim.mem[x]).collect();
+                    match guarded(|| sim.load_obj_file(&o2)) {
+                        Ok(Ok(())) => {}
+                        Ok(Err(e)) => return fail(i, "load-error", format!("load_obj_file of file {k} with an added empty block at x{at:04X} failed: {e:?}")),
+                        Err(p) => return fail(i, "panic-in-load", p),
+                    }
+                    loads += 1;
+                    out.bump("probe.loaded-file-with-empty-block");
+                    for x in 0..=0xFFFFu16 {
+                        let now = sim.mem[x];
+                        let ok = match files[k].obj.image.get(&x) {
+                            Some(Some(v)) => now.get() == *v && now.is_init(),
+                            Some(None) => now.verif_init_mask() == 0,
+                            None => now == before[x as usize],
+                        };
+                        if !ok {
+                            return fail(i, "load-after-empty-block", format!("file {k} with an added empty block at x{at:04X}: mem[x{x:04X}] = (x{:04X}, init {}) after the load; image says {:?}", now.get(), now.is_init(), files[k].obj.image.get(&x)));
+                        }
+                    }
+                    fp.add(0x600 + k as u64);
+                }
                 5 => {
                     // a fully initialised value sitting where a later load reserves space (the program
                     // used its buffer, then the file is loaded again)
@@ -968,6 +1009,7 @@ impl Check for C29 {
                 3 => (1u8, r.below(4000) as u32),
                 4 if nf >= 2 => (3u8, r.below(1000) as u32),
                 5 => (if r.bool() { 4u8 } else { 5u8 }, (r.u16() as u32) << 16 | r.below(5000) as u32),
+                6 if r.bool() => (6u8, r.below(5000) as u32),
                 _ => (2u8, (r.u16() as u32) << 16 | r.u16() as u32),
             });
         }
